@@ -22,3 +22,17 @@ lemma("cut_exists",
       requires=["increasing(thr)", "0 <= m", "m <= len(thr)"],
       ensures=[("exists", "exists(0, m + 1, lambda c: (c == 0 or thr[c - 1] < v) and (c == m or v <= thr[c]))")],
       induct="m", props=("C02",))
+
+
+# sums of non-negative terms (used, instantiated, by the engine's sum model)
+lemma("psum_nonneg",
+      vars=dict(v=VecT(Real), m=Int),
+      requires=["0 <= m", "m <= len(v)", "forall(0, len(v), lambda k: v[k] >= 0)"],
+      ensures=[("nonneg", "psum(v, m) >= 0")],
+      induct="m", props=("C03", "C14", "C16", "C17"))
+
+lemma("psum_pos",
+      vars=dict(v=VecT(Real), m=Int, j=Int),
+      requires=["0 <= j", "j < m", "m <= len(v)", "forall(0, len(v), lambda k: v[k] >= 0)", "v[j] > 0"],
+      ensures=[("pos", "psum(v, m) > 0")],
+      induct="m", uses=("psum_nonneg",), props=("C03", "C14", "C16", "C17"))
